@@ -3,8 +3,9 @@ from ..sqlgen import *  # noqa
 from ..qcheck import mk_case, run_cases
 from ..common import run_go, dec_val
 
+FACTS = True
 MODULE = "Genql.Properties.C01"
-LEAN_TARGETS = [MODULE]
+LEAN_TARGETS = [MODULE, "Genql.Obligations.C01"]
 THEOREMS = [
     "Genql.C01.evalPred_sound",
     "Genql.C01.where_exact",
@@ -15,6 +16,9 @@ THEOREMS = [
     "Genql.C01.like_translation",
     "Genql.C01.inLoop_subquery_rows",
     "Genql.C01.inLoop_multi_column_error",
+    "Genql.Obligations.C01.cmpDispatch_modelCmp",
+    "Genql.Obligations.C01.comparison_cases_agree",
+    "Genql.Obligations.C01.comparison_case_labels",
 ]
 TRUSTED = ["Go regexp engine and regexp.QuoteMeta (compared directly, not modelled)",
            "strings.ToLower beyond ASCII", "sqlparser (query text -> AST)"]
@@ -117,7 +121,9 @@ def explore(chk, rnd, tier):
 LEVEL_TEXT = ("Lean theorems: on the property's domain (typed non-NULL columns, NULL only under IS [NOT] NULL) the model of "
               "ComparisonExpr/BetweenExpr/And/Or/Not/IsExpr returns exactly the SQL truth value and the exec() filter loop "
               "returns rows.filter(sem) for every table and predicate (unbounded); LIKE's matcher equals the SQL LIKE relation. "
-              "The model is tied to /repo by a differential correspondence on generated tables x predicates on every run.")
+              "The model is tied to /repo by a differential correspondence on generated tables x predicates on every run, and by an "
+              "obligation on the operator decision table regenerated from ComparisonExpr (each ordering case tests the result of "
+              "compare.Compare exactly as cmpDispatch does).")
 LEVEL_NOTE = ("Trusted: Lean kernel (+propext, Classical.choice, Quot.sound), the Go<->Lean correspondence glue, sqlparser, Go regexp "
               "(compared not modelled), ASCII-only case folding in the model. IN over a sub-query: the scan over the sub-query's rows "
               "is proved to be membership among the single column's values (inLoop_subquery_rows; several columns = error); that "
